@@ -137,9 +137,9 @@ theorem allowOperation_built {a : ACL} {rules : List PathRule} (hb : Built a rul
       simp only
       exact checkPerms_eq_specCheck (agrees_mergeAll _ (wf_permsFor hwf kind k) m hm) req cc
 
-theorem acl_refines_spec (ps : List (Option Policy)) (a : ACL) (h : newACL ps = .ok a)
-    (hwf : wfRules (rulesOf ps) = true) (req : Req) (cc : Bool) :
-    allowOperation a req cc = specAllow ps req cc := by
+theorem acl_refines_spec (now : Int) (ps : List (Option Policy)) (a : ACL) (h : newACL now ps = .ok a)
+    (hwf : wfRules (rulesOf now ps) = true) (req : Req) (cc : Bool) :
+    allowOperation a req cc = specAllow now ps req cc := by
   rw [newACL_eq] at h
   split at h
   · simp only [Except.ok.injEq] at h
@@ -152,7 +152,7 @@ theorem acl_refines_spec (ps : List (Option Policy)) (a : ACL) (h : newACL ps = 
       by_cases hh : req.op = .help
       · simp [allowOperation, setRoot, hr, hh]
       · simp only [hh, if_false]
-        have hb := built_foldl (rulesOf ps) false
+        have hb := built_foldl (rulesOf now ps) false
         rw [allowOperation_built hb hwf rfl req cc hh]
   · exact absurd h (by simp)
 
